@@ -38,6 +38,7 @@ import (
 
 const rule = "abi: the ABI contains a tuple nested in a tuple, or a tuple inside an array of >= 2 dimensions; " +
 	"schema: a mutated or arbitrary parameter schema that still passes the FFI meta-schema (so the conversion code behind the validation is reached); " +
+	"def: a whole definition with two or more parameters (all well-formed, or one of them - at any position - without a usable schema); " +
 	"convseq: a history in which a name was converted before under another schema or a $ref names a parameter converted earlier; shared: as abi; every concurrent batch; distinct by hash of the case"
 
 // ---------------------------------------------------------------------------
@@ -283,6 +284,14 @@ type SchemaCase struct {
 	Target string `json:"target"` // method-param | method-return | event | error
 	Name   string `json:"name"`   // parameter name
 	Schema string `json:"schema"` // the text handed over as the parameter schema ("hex:<hex>" if not UTF-8)
+	// Form says how the schema reaches the converter:
+	//   ""            the text, as a *fftypes.JSONAny built in Go
+	//   "nil"         the parameter has NO schema: FFIParam.Schema is a nil pointer (the text is not used)
+	//   "doc"         the whole definition travels as a JSON document {"name":"m","params":[{"name":..,"schema":<text>}]}
+	//                 that encoding/json decodes into the fftypes definition (the way definitions arrive over an API)
+	//   "doc-absent"  as doc; the parameter object has no "schema" member
+	//   "doc-null"    as doc; "schema": null
+	Form string `json:"form,omitempty"`
 }
 
 func encStr(s string) string {
@@ -518,19 +527,29 @@ func walk(m map[string]interface{}, ety string, path string) *finding {
 	return nil
 }
 
-func convertOne(target, name, schema string) (entry *abi.Entry, err error) {
-	ctx := context.Background()
-	params := fftypes.FFIParams{{Name: name, Schema: fftypes.JSONAnyPtr(schema)}}
+// convertOne hands a one-parameter definition to the converter of the target; ok=false when the
+// form cannot carry the case (a JSON document cannot hold a text that is not JSON).
+func convertOne(target, name, schema, form string) (entry *abi.Entry, err error, ok bool) {
+	p := paramSpec{name: name, text: schema}
+	d := defSpec{target: target}
+	switch form {
+	case "nil":
+		p.absent = true
+	case "doc":
+		d.viaDoc = true
+	case "doc-absent":
+		d.viaDoc, p.absent = true, true
+	case "doc-null":
+		d.viaDoc, p.absent, p.nullKey = true, true, true
+	}
+	d.params = []paramSpec{p}
 	switch target {
 	case "method-return":
-		return ffi2abi.ConvertFFIMethodToABI(ctx, &fftypes.FFIMethod{Name: "m", Params: fftypes.FFIParams{}, Returns: params})
-	case "event":
-		return ffi2abi.ConvertFFIEventDefinitionToABI(ctx, &fftypes.FFIEventDefinition{Name: "m", Params: params})
-	case "error":
-		return ffi2abi.ConvertFFIErrorDefinitionToABI(ctx, &fftypes.FFIErrorDefinition{Name: "m", Params: params})
-	default:
-		return ffi2abi.ConvertFFIMethodToABI(ctx, &fftypes.FFIMethod{Name: "m", Params: params, Returns: fftypes.FFIParams{}})
+		d.target, d.params, d.returns = "method", nil, []paramSpec{p}
+	case "method-param":
+		d.target = "method"
 	}
+	return d.convert()
 }
 
 func holes(pa abi.ParameterArray) bool {
@@ -554,20 +573,52 @@ type schemaOutcome struct {
 	accepted bool
 	finding  *finding
 	entry    *abi.Entry // the converted entry when accepted
+	vacuous  bool       // the form cannot carry this schema (a text that is not JSON inside a JSON document): nothing was converted
 }
 
 func judgeSchemaText(target, name, schema string) (o schemaOutcome) {
+	return judgeSchemaForm(target, name, schema, "")
+}
+
+// schemaFinding: what is provably wrong with the schema of ONE parameter.  Before the
+// inconsistencies analyse() looks for comes the plainest one: there is no schema at all (absent,
+// null, empty text), the text is not JSON, or it is a JSON value other than an object - none of
+// these can say which Ethereum type the parameter has, so no conversion of it can be right.
+func schemaFinding(absent bool, text string) *finding {
+	if absent {
+		return &finding{"no-schema", "the parameter has no schema (absent or null)"}
+	}
+	if strings.TrimSpace(text) == "" {
+		return &finding{"no-schema", "the schema text is empty"}
+	}
+	if !json.Valid([]byte(text)) {
+		return &finding{"not-json", "the schema text is not JSON"}
+	}
+	tree, ok := parseJSON(text)
+	if !ok {
+		return nil
+	}
+	if _, isObject := tree.(map[string]interface{}); !isObject {
+		return &finding{"not-an-object", "the schema is a JSON value that is not an object"}
+	}
+	return analyse(tree)
+}
+
+func judgeSchemaForm(target, name, schema, form string) (o schemaOutcome) {
 	var entry *abi.Entry
 	var err error
-	if pv := evid.Guard("schema-no-panic", func() { entry, err = convertOne(target, name, schema) }); pv != nil {
-		pv.Detail = fmt.Sprintf("%s schema %s: %s", target, short(schema), pv.Detail)
+	representable := true
+	if pv := evid.Guard("schema-no-panic", func() { entry, err, representable = convertOne(target, name, schema, form) }); pv != nil {
+		pv.Detail = fmt.Sprintf("%s schema %s (form %q): %s", target, short(schema), form, pv.Detail)
 		o.vs = append(o.vs, *pv)
 		return o
 	}
-	o.accepted = err == nil
-	if tree, ok := parseJSON(schema); ok {
-		o.finding = analyse(tree)
+	if !representable {
+		o.vacuous = true
+		return o
 	}
+	o.accepted = err == nil
+	o.finding = schemaFinding(form == "nil" || form == "doc-absent" || form == "doc-null", schema)
 	if err != nil {
 		return o
 	}
@@ -597,7 +648,7 @@ func judgeSchemaText(target, name, schema string) (o schemaOutcome) {
 }
 
 func judgeSchema(c SchemaCase) []evid.Violation {
-	return judgeSchemaText(c.Target, decStr(c.Name), decStr(c.Schema)).vs
+	return judgeSchemaForm(c.Target, decStr(c.Name), decStr(c.Schema), c.Form).vs
 }
 
 // passesMeta classifies (for the evidence only): does the text compile as an FFI parameter schema?
@@ -642,8 +693,16 @@ var wideAlphabet = []string{"a", "b", "Z", "0", "7", "_", "$", "\u00e9", "\u00f6
 var wideSamples = []string{"unit price", "100%", "ok?", "needed,available", "a/b", "gr\u00f6\u00dfe", "\u6570\u91cf", "a:b", "1:2", ":", "Foo:bar", "a#b", "#", "%41", "%", "..", ".", "a/../b",
 	"a b%20c", "http://x/y", "a;b", "a&b=c+d", "?", "/", "x y z", "\u00e9:x", "<T>", "a[0]", "{k}", "a|b", "a\\b", "caf\u00e9", "na\u00efve name", "~", "-", "a.b", "q?#f"}
 
+// digitNames: names that are decimal numbers - legal names, and exactly what a member's POSITION
+// looks like when it is written as a string ("0", "1", ...; "00", "01", "10" differ from every position
+// of a 1..4-member tuple only in spelling).
+var digitNames = []string{"0", "1", "2", "3", "4", "10", "00", "01"}
+
 // genName draws a parameter / member name: an identifier most of the time, a wide name otherwise.
 func genName(rt *rapid.T, label string) string {
+	if rapid.IntRange(0, 15).Draw(rt, label+".digits") == 9 {
+		return rapid.SampledFrom(digitNames).Draw(rt, label+".digit")
+	}
 	switch rapid.IntRange(0, 9).Draw(rt, label+".shape") {
 	case 0, 1:
 		n := rapid.IntRange(1, 6).Draw(rt, label+".wide.n")
@@ -692,6 +751,23 @@ func distinctNamesWith(rt *rapid.T, label string, n int, allowEmpty bool, draw f
 		out = append(out, name)
 	}
 	return out
+}
+
+// memberNames draws the names of the members of ONE tuple.  They are pairwise distinct (the
+// property's quantifier), which leaves room for exactly one member WITHOUT a name (about one
+// tuple in four has one, at a position drawn uniformly), and about one named member in six is
+// called like a decimal number - often the position of a sibling, the unnamed one included.
+func memberNames(rt *rapid.T, label string, n int) []string {
+	names := distinctNamesWith(rt, label, n, false, func(rt *rapid.T, l string) string {
+		if rapid.IntRange(0, 11).Draw(rt, l+".position") == 7 {
+			return fmt.Sprint(rapid.IntRange(0, n).Draw(rt, l+".position.n"))
+		}
+		return genName(rt, l)
+	})
+	if u := rapid.IntRange(0, 4*n-1).Draw(rt, label+".unnamedMember"); u < n {
+		names[u] = ""
+	}
+	return names
 }
 
 func genElementary(rt *rapid.T, label string) string {
@@ -771,7 +847,7 @@ func genParamOpt(rt *rapid.T, label string, name string, depth int, memberless i
 		dims := genDims(rt, label, true)
 		t.Type = "tuple" + dims
 		n := rapid.IntRange(1, 4).Draw(rt, label+".members")
-		names := distinctNames(rt, label+".m", n, false)
+		names := memberNames(rt, label+".m", n)
 		for i, mn := range names {
 			t.Components = append(t.Components, genParamOpt(rt, fmt.Sprintf("%s.%d", label, i), mn, depth-1, min(memberless, 20)))
 		}
@@ -796,8 +872,52 @@ func genParamOpt(rt *rapid.T, label string, name string, depth int, memberless i
 	return t
 }
 
+// maxIndexed: a log has four topics; the first one holds the signature hash of an ordinary
+// event, an ANONYMOUS event has no signature topic and may index four parameters.
+func maxIndexed(anonymous bool) int {
+	if anonymous {
+		return 4
+	}
+	return 3
+}
+
+// markIndexed flags 0..maxIndexed(anonymous) of the inputs (any positions) as indexed; half of
+// the events use the whole allowance (as far as they have parameters).
+func markIndexed(rt *rapid.T, label string, inputs []T, anonymous bool) {
+	limit := maxIndexed(anonymous)
+	want := limit
+	if rapid.Bool().Draw(rt, label+".idx.some") {
+		want = rapid.IntRange(0, limit).Draw(rt, label+".idx.n")
+	}
+	if want > len(inputs) {
+		want = len(inputs)
+	}
+	if want == 0 {
+		return
+	}
+	pos := make([]int, len(inputs))
+	for i := range pos {
+		pos[i] = i
+	}
+	for _, j := range rapid.Permutation(pos).Draw(rt, label+".idx.at")[:want] {
+		inputs[j].Indexed = true
+	}
+}
+
+func countIndexed(inputs []T) (n int) {
+	for _, p := range inputs {
+		if p.Indexed {
+			n++
+		}
+	}
+	return n
+}
+
 func genParams(rt *rapid.T, label string, maxN int, depth int) []T {
-	n := rapid.IntRange(0, maxN).Draw(rt, label+".n")
+	return genParamsN(rt, label, rapid.IntRange(0, maxN).Draw(rt, label+".n"), depth)
+}
+
+func genParamsN(rt *rapid.T, label string, n int, depth int) []T {
 	names := distinctNames(rt, label, n, true)
 	out := make([]T, 0, n)
 	for i, name := range names {
@@ -828,15 +948,9 @@ func genABI(rt *rapid.T) ABICase {
 			e.Constant = (e.StateMutability == "view" || e.StateMutability == "pure") && rapid.Bool().Draw(rt, label+".constant")
 		case 6, 7, 8:
 			e.Type = "event"
-			e.Inputs = genParams(rt, label+".in", 4, 2)
-			e.Anonymous = rapid.IntRange(0, 4).Draw(rt, label+".anon") == 0
-			left := 3
-			for j := range e.Inputs {
-				if left > 0 && rapid.Bool().Draw(rt, fmt.Sprintf("%s.idx%d", label, j)) {
-					e.Inputs[j].Indexed = true
-					left--
-				}
-			}
+			e.Anonymous = rapid.IntRange(0, 2).Draw(rt, label+".anon") == 1
+			e.Inputs = genParamsN(rt, label+".in", rapid.SampledFrom([]int{0, 1, 2, 3, 3, 4, 4, 5, 6}).Draw(rt, label+".in.n"), 2)
+			markIndexed(rt, label, e.Inputs, e.Anonymous)
 		default:
 			e.Type = "error"
 			e.Inputs = genParams(rt, label+".in", 3, 2)
@@ -855,7 +969,10 @@ func genABI(rt *rapid.T) ABICase {
 type abiStats struct {
 	tupleInTuple, tupleIn2D, tupleIn1D, anyTuple, indexed, unnamed, internal bool
 	wideTop, wideMember, escapedTop                                          bool
-	maxDepth                                                                 int
+	// tuple members without a name / called like a decimal number, by where the tuple sits
+	unnamedMember, digitMember, unnamedBesidePosition bool
+	unnamedMemberWhere                                map[string]bool
+	maxDepth                                          int
 	// member-less tuples, by where they sit (labels of the evidence histogram)
 	memberless map[string]bool
 }
@@ -923,7 +1040,34 @@ func (s *abiStats) visitIn(t T, depth int, insideTuple bool, where string) {
 		if depth+1 > s.maxDepth {
 			s.maxDepth = depth + 1
 		}
-		for _, c := range t.Components {
+		for i, c := range t.Components {
+			if c.Name == "" {
+				s.unnamedMember = true
+				if s.unnamedMemberWhere == nil {
+					s.unnamedMemberWhere = map[string]bool{}
+				}
+				if where != "" {
+					s.unnamedMemberWhere[where] = true
+				}
+				if insideTuple {
+					s.unnamedMemberWhere["tuple-nested-in-tuple"] = true
+				} else {
+					s.unnamedMemberWhere["top-level-tuple"] = true
+				}
+				if nd > 0 {
+					s.unnamedMemberWhere["tuple-under-array-dimensions"] = true
+				}
+				if strings.HasPrefix(c.Type, "tuple") {
+					s.unnamedMemberWhere["unnamed-member-is-a-tuple"] = true
+				}
+				for _, sib := range t.Components {
+					if sib.Name == fmt.Sprint(i) {
+						s.unnamedBesidePosition = true
+					}
+				}
+			} else if strings.Trim(c.Name, "0123456789") == "" {
+				s.digitMember = true
+			}
 			s.visitIn(c, depth+1, true, where)
 		}
 	}
@@ -1328,6 +1472,10 @@ func TestCheck(t *testing.T) {
 	defer rec.Finish()
 	rec.Assume("round-trip oracle: signature and parameter tree rendered from the generated ABI model (explicit-width types only), not from the library's parse of it")
 	rec.Assume("tuples have 0..4 members: a member-less tuple (component list absent or present and empty; about 3 % of the top-level parameters, 0.7 % of the nested ones; alone, under 1..3 array dimensions, inside other tuples, as input, output, event input - indexed or not - and error input) is spelled (), ()[], ()[3][] by the reference renderer and takes part in the helper-signature clause and in the whole round trip like every other tuple (the interface format represents it as an object schema without properties)")
+	rec.Assume("tuple member names are pairwise distinct (the quantifier): that admits ONE member without a name per tuple (about one tuple in four has one: top level, nested, under array dimensions, in inputs, outputs, events and errors; also a tuple-typed unnamed member) and members named like decimal numbers (\"0\", \"1\", \"10\", \"01\", often the position of a sibling); every name must come back verbatim - unnamed stays unnamed. Two unnamed members of one tuple share the name \"\" and are outside the quantifier (the interface format keys members by name); top-level parameters are a list and may be unnamed any number of times")
+	rec.Assume("events: an ordinary event has up to 3 indexed parameters, an anonymous one up to 4 (the EVM's four log topics, the first of which holds the signature hash of an ordinary event); half of the generated events use the whole allowance; the interface format carries 'anonymous' in the event details, so both kinds must survive the round trip. Nothing is claimed about events with more indexed parameters than topics (not generated); preservation of the anonymous flag itself is not asserted")
+	rec.Assume("a parameter without a usable schema - FFIParam.Schema nil (in a JSON document: member absent or null), empty or white-space text, text that is not JSON (json.Valid), a JSON value that is not an object - cannot say which Ethereum type it has: the conversion must report an error (kinds schema, def, convseq; at any position of the parameter or return list). Definitions are handed over built in Go and as JSON documents decoded by encoding/json into the fftypes definition types")
+	rec.Assume("kind def: schemas of the well-formed parameters are built by the package's own schemaFor (not by the library's ABI -> FFI direction); a definition whose parameters are all well-formed must be accepted and reproduce the modelled names, types, nesting and indexed flags")
 	rec.Assume("schema oracle: analyse() — generic-JSON analyser for the inconsistencies the property names (array without items; member position missing, colliding, out of range; JSON type definitely at odds with details.type at the top level); it returns 'nothing provable' for every shape it does not understand")
 	rec.Assume("not asserted: alias spellings in the stand-alone helper; preservation of internalType / stateMutability / payable / constant / anonymous; JSON type of nested members; 'integer' for address or fixed and 'number' for integer types (open readings); nil entries in a params list")
 	rec.Assume("kind convseq (histories): a \"$ref\" to another document (identifier-like, not a fragment, not the parameter's own name, not an existing file) cannot be resolved when a definition is converted on its own, so such a conversion must fail at every position of a history; names carry a per-case tag so that no two cases share a name")
@@ -1357,6 +1505,26 @@ func TestCheck(t *testing.T) {
 		add(s.wideTop, "abi:top-level-name-beyond-identifiers")
 		add(s.escapedTop, "abi:top-level-name-changed-by-URL-escaping")
 		add(s.wideMember, "abi:member-name-beyond-identifiers")
+		add(s.unnamedMember, "abi:unnamed-tuple-member")
+		add(s.digitMember, "abi:tuple-member-named-like-a-number")
+		add(s.unnamedBesidePosition, "abi:unnamed-tuple-member-beside-one-named-like-its-position")
+		for _, w := range sortedBoolKeys(s.unnamedMemberWhere) {
+			cl = append(cl, "abi:unnamed-tuple-member:"+w)
+		}
+		var anon, anon4, ord3, idx0 bool
+		for _, e := range c.ABI {
+			if e.Type == "event" {
+				ni := countIndexed(e.Inputs)
+				anon = anon || e.Anonymous
+				anon4 = anon4 || e.Anonymous && ni == 4
+				ord3 = ord3 || !e.Anonymous && ni == 3
+				idx0 = idx0 || ni == 0 && len(e.Inputs) > 0
+			}
+		}
+		add(anon, "abi:event:anonymous")
+		add(anon4, "abi:event:anonymous-with-4-indexed")
+		add(ord3, "abi:event:ordinary-with-3-indexed")
+		add(idx0, "abi:event:none-indexed")
 		for _, w := range sortedBoolKeys(s.memberless) {
 			cl = append(cl, "abi:member-less-tuple:"+w)
 		}
@@ -1399,16 +1567,46 @@ func TestCheck(t *testing.T) {
 		if len(text) > 16<<10 {
 			rt.Skip("schema over 16KiB")
 		}
-		o := judgeSchemaText(target, name, text)
+		form := ""
+		if rapid.IntRange(0, 4).Draw(rt, "form") == 2 {
+			form = "doc" // the definition travels as a JSON document
+		}
+		o := judgeSchemaForm(target, name, text, form)
 		meta := passesMeta(name, text)
-		cl := []string{"schema:mutant"}
+		cl := []string{"schema:mutant", "schema:form:" + form}
 		for _, op := range ops {
 			cl = append(cl, "mut:"+op)
 		}
 		cl = append(cl, schemaClasses("mutant", o, meta)...)
-		kSchema.Check(rt, SchemaCase{Target: target, Name: encStr(name), Schema: encStr(text)}, meta, cl...)
+		sc := SchemaCase{Target: target, Name: encStr(name), Schema: encStr(text), Form: form}
+		kSchema.Check(rt, sc, meta, cl...)
 		if meta {
-			m.cSchema.offer(SchemaCase{Target: target, Name: encStr(name), Schema: encStr(text)})
+			m.cSchema.offer(sc)
+		}
+	})
+
+	// the plainest "arbitrary definitions", exhaustively: a parameter with no schema at all (nil pointer; in a
+	// document: member absent / null) and schema texts that are nothing, white space, not JSON, or a JSON value
+	// that is not an object - for every target, built in Go and (where a document can carry it) as a document
+	t.Run("schema-not-a-schema", func(t *testing.T) {
+		for _, name := range []string{"p", "", "1", "a b"} {
+			for _, target := range targets {
+				for _, form := range []string{"nil", "doc-absent", "doc-null"} {
+					kSchema.Must(t, SchemaCase{Target: target, Name: name, Form: form}, false, "schema:no-schema", "schema:form:"+form)
+				}
+				for _, text := range append(append([]string{}, notSchemas...), notJSON...) {
+					for _, form := range []string{"", "doc"} {
+						if form == "doc" && !json.Valid([]byte(text)) {
+							continue
+						}
+						f := schemaFinding(false, text)
+						if f == nil {
+							t.Fatalf("harness: %q is not reported as unusable", text)
+						}
+						kSchema.Must(t, SchemaCase{Target: target, Name: name, Schema: encStr(text), Form: form}, false, "schema:not-a-schema", "schema:form:"+form, "inconsistent:"+f.class)
+					}
+				}
+			}
 		}
 	})
 
@@ -1459,9 +1657,25 @@ func TestCheck(t *testing.T) {
 			name = rapid.String().Draw(rt, "name")
 		}
 		target := rapid.SampledFrom(targets).Draw(rt, "target")
-		o := judgeSchemaText(target, name, text)
-		meta := passesMeta(name, text)
-		kSchema.Check(rt, SchemaCase{Target: target, Name: encStr(name), Schema: encStr(text)}, meta, append([]string{"schema:arbitrary"}, schemaClasses("arbitrary", o, meta)...)...)
+		form := ""
+		switch rapid.IntRange(0, 19).Draw(rt, "form") {
+		case 7, 8, 9:
+			if json.Valid([]byte(text)) && utf8.ValidString(name) {
+				form = "doc"
+			}
+		case 10:
+			form, text = rapid.SampledFrom([]string{"nil", "doc-absent", "doc-null"}).Draw(rt, "noschema"), ""
+		}
+		o := judgeSchemaForm(target, name, text, form)
+		meta := form != "nil" && form != "doc-absent" && form != "doc-null" && passesMeta(name, text)
+		kSchema.Check(rt, SchemaCase{Target: target, Name: encStr(name), Schema: encStr(text), Form: form}, meta, append([]string{"schema:arbitrary", "schema:form:" + form}, schemaClasses("arbitrary", o, meta)...)...)
+	})
+
+	// whole definitions with several parameters, built in Go or travelling as JSON documents
+	rec.Rapid(t, "def", rec.N(1200, 10000), func(rt *rapid.T) {
+		c, nt, cl := genDef(rt)
+		m.kDef.Check(rt, c, nt, cl...)
+		m.cDef.offer(c)
 	})
 
 	// histories of conversions whose definitions share names / refer to one another's names
@@ -1475,10 +1689,13 @@ func TestCheck(t *testing.T) {
 	m.cSchema.run(t, 8, 3, 64)
 	m.cABI.run(t, 8, 2, 32)
 	m.cConvSeq.run(t, 8, 2, 32)
+	m.cDef.run(t, 8, 2, 32)
 }
 
 // more holds the kinds for histories and concurrency (registered in TestReplay too).
 type more struct {
+	kDef     *evid.Kind[DefCase]
+	cDef     *collector[DefCase]
 	kConvSeq *evid.Kind[ConvSeqCase]
 	kShared  *evid.Kind[SharedCase]
 	cSchema  *collector[SchemaCase]
@@ -1495,6 +1712,8 @@ func moreKinds(rec *evid.Recorder, on bool) *more {
 		return 0
 	}
 	return &more{
+		kDef:     evid.NewKind(rec, "def", judgeDef).DeclareEach(),
+		cDef:     newCollector(rec, "concurrent-def", judgeDef, max(64)),
 		kConvSeq: evid.NewKind(rec, "convseq", judgeConvSeq).DeclareEach(),
 		kShared:  evid.NewKind(rec, "shared", judgeShared).DeclareEach(),
 		cSchema:  newCollector(rec, "concurrent-schema", judgeSchema, max(256)),
@@ -1559,6 +1778,12 @@ func FuzzSchema(f *testing.F) {
 	for i, s := range seeds {
 		f.Add(uint8(i), "p", s)
 	}
+	for i := 0; i < 4; i++ { // the same through a JSON document; no schema at all
+		f.Add(uint8(13*4+i), "p", seeds[5])
+		f.Add(uint8(14*4+i), "p", "")
+		f.Add(uint8(15*4+i), "p", "")
+		f.Add(uint8(15*4+i), "", "")
+	}
 	rec := evid.Start("C20", rule)
 	k := evid.NewKind(rec, "schema", judgeSchema)
 	f.Fuzz(func(t *testing.T, sel uint8, name string, schema string) {
@@ -1566,8 +1791,17 @@ func FuzzSchema(f *testing.F) {
 			return
 		}
 		target := targets[int(sel)%len(targets)]
-		if o := judgeSchemaText(target, name, schema); len(o.vs) > 0 {
-			k.Fail(t, SchemaCase{Target: target, Name: encStr(name), Schema: encStr(schema)}, o.vs)
+		form := ""
+		switch (int(sel) / len(targets)) % 16 {
+		case 13:
+			form = "doc"
+		case 14:
+			form, schema = "nil", ""
+		case 15:
+			form, schema = []string{"doc-absent", "doc-null"}[len(name)%2], ""
+		}
+		if o := judgeSchemaForm(target, name, schema, form); len(o.vs) > 0 {
+			k.Fail(t, SchemaCase{Target: target, Name: encStr(name), Schema: encStr(schema), Form: form}, o.vs)
 		}
 	})
 }
